@@ -243,6 +243,11 @@ def run(ctx):
         if sc["when"] == "late" and nb > 4:
             plan.append((sc, {"prefix": nb // 2,
                               "second": {"at": 1, "prefix": nb // 3}}))
+            if sc["scope"] == "weights":
+                # first kill directly after the new file was created (0
+                # bytes), second kill part-way through the next write
+                plan.append((sc, {"prefix": 0,
+                                  "second": {"at": 1, "prefix": nb // 3}}))
             if not ctx.quick:
                 plan.append((sc, {"prefix": 0,
                                   "second": {"at": 1, "op": 2}}))
